@@ -1100,11 +1100,6 @@ package goatlang
 //@   trusted
 //@   modifies allbut(H$VM,A$instruction,H$funcT,H$lookup)
 //@   ensures stackKept()
-//@ func (Value).addMethod
-//@   property C07
-//@   trusted
-//@   modifies allbut(H$VM,A$instruction,H$lookup)
-//@   ensures stackKept()
 //@ func newNext
 //@   property C07
 //@   trusted
@@ -1302,6 +1297,7 @@ package goatlang
 //@ func (*VM).exec case codeSetMethod
 //@   property C07 C17
 //@   requires need(v, 2) && globalOK(v, ins(v).A)
+//@   requires is(top(v, 0).value, *structT) && wfS(as(top(v, 0).value, *structT)) && methodsOK(*as(top(v, 0).value, *structT).Methods) && is(top(v, 1).value, *funcT) && as(top(v, 1).value, *funcT) != nil
 //@   ensures#delta len(v.stack) == old(len(v.stack)) - 2
 //@   ensures#frame keeps(v, len(v.stack))
 //@   ensures#next stays(v)
@@ -2478,3 +2474,22 @@ package goatlang
 //@   invariant#shared st.Lookup == b.Lookup && st.Order == b.Order && st.Methods == b.Methods && s.t == TypeStruct | Type(b.TypeN<<8) && b == as(base.value, *structT)
 //@   invariant#keys forall k int :: trig(k) ==> (has(st.Fields, k) <==> has(b.Fields, k))
 //@   invariant#untouched forall k int, x Value :: trig(k, x) && (forall p int :: 0 <= p && p < n && p % 2 == 0 ==> data[p].Int() != k) ==> (holds(st.Fields, k, x) <==> holds(b.Fields, k, x))
+//@
+//@ -- SETMETHOD / reload: an existing method object is overwritten in place (every bound method and
+//@ -- function value that holds the *funcT sees the new body); the table itself is not touched then
+//@ func (Value).addMethod
+//@   property C17 C12 C07
+//@   axioms POW2 COUNT
+//@   splitpaths
+//@   requires is(v.value, *structT) && wfS(as(v.value, *structT)) && methodsOK(*as(v.value, *structT).Methods) && is(val.value, *funcT) && as(val.value, *funcT) != nil
+//@   modifies H$funcT fields(as(v.value, *structT).Methods) elems(as(v.value, *structT).Methods.pairs) M$Str$Int$dom M$Str$Int$val M$Str$Int$card
+//@   allocates elems(intMapPair)
+//@   nopanic
+//@   ensures#lookup haskey(as(v.value, *structT).Lookup, key) && as(v.value, *structT).Lookup[key] == idx
+//@   ensures#inplace forall x Value :: trig(idx, x) && old(holds(*as(v.value, *structT).Methods, idx, x)) ==> holds(*as(v.value, *structT).Methods, idx, x) && *as(x.value, *funcT) == old(*as(val.value, *funcT))
+//@   ensures#table old(has(*as(v.value, *structT).Methods, idx)) ==> *as(v.value, *structT).Methods == old(*as(v.value, *structT).Methods) && same(elemsAt(intMapPair, arr(as(v.value, *structT).Methods.pairs)), old(elemsAt(intMapPair, arr(as(v.value, *structT).Methods.pairs))))
+//@   ensures#otherfuncs forall g *funcT, x Value :: trig(idx, x) && old(holds(*as(v.value, *structT).Methods, idx, x)) && g != as(x.value, *funcT) ==> *g == old(*g)
+//@   ensures#nofuncs !old(has(*as(v.value, *structT).Methods, idx)) ==> (forall g *funcT :: *g == old(*g))
+//@   ensures#new !old(has(*as(v.value, *structT).Methods, idx)) ==> (trig(idx, val) ==> holds(*as(v.value, *structT).Methods, idx, val))
+//@   ensures#others forall k2 int, x Value :: trig(k2, x) && k2 != idx ==> (holds(*as(v.value, *structT).Methods, k2, x) <==> old(holds(*as(v.value, *structT).Methods, k2, x)))
+//@   ensures#wf wfIM(*as(v.value, *structT).Methods) && *as(v.value, *structT) == old(*as(v.value, *structT))
